@@ -10,6 +10,8 @@ import PrologVerif.Proofs.LexerSpec
 import PrologVerif.Proofs.LexerRing
 import PrologVerif.Proofs.ReadBack
 import PrologVerif.Proofs.CanonRoundtrip
+import PrologVerif.Proofs.OpRoundtrip
+import PrologVerif.Proofs.OpRoundtripLexCex
 namespace PrologVerif.C06Example
 open PrologVerif PrologVerif.Lexer PrologVerif.Write
 
@@ -286,10 +288,188 @@ example :
     writeCanonical exEnv Ops.defaultTable t = "f('hello world',-(1),-1,1.5,_a,[],_a,[](-))".toList := by
   decide +kernel
 
-/-- P2 (open): the same for `writeq` with operators. -/
+/-! ### P2: `writeq` with operators
+
+  `qt e G t o` (Proofs/OpRoundtripDefs.lean) is the token sequence the text of `writeq` is meant to lex to,
+  defined by the writer's own recursion (same bracket conditions).  The reader half is proved for EVERY
+  well-formed term and EVERY operator table satisfying `tableOK` (implied by the invariant `Ops.Valid` of
+  Properties/C18, hence true of every table reachable through op/3): the classical correctness argument of
+  operator-precedence printing, on the model of `Parser.term` — `term(mp)` reads `qt t o` as `t` whenever
+  the writer's priority for the position is ≤ `mp` and the next token cannot continue the term at any
+  priority the writer relied on (`Write.qspec_all`, by induction on the term: prefix / postfix / infix
+  operators with brackets by priority and by the operator on the right, operators as atoms and arguments,
+  negative numbers, `- (1)`, `,` `|` `[]` `{}`, lists, curly terms, functional notation). -/
+
+/-- The full statement kept visible.  As it stands it is FALSE; `C06_op_roundtrip` below is the same
+    conclusion under hypotheses, and this is exactly what separates the two:
+    * on the term: `wfTerm` and `numsOK` (the model's `Term` has stream handles, compounds without arguments
+      and unbounded integers, which the engine's terms do not have; floats must be among those the
+      `FormatFloat` parameter is known for) and `noVAR` (writeq prints `'$VAR'(N)` as a variable name, by
+      design: `C06_op_roundtrip_numbervars_witness`);
+    * on the table: `tableOK`, every conjunct of which is needed (`C06_op_roundtrip_priority_witness`,
+      `…_infix_postfix_witness`, `…_comma_witness`, `…_bar_witness`, `…_brackets_witness`) and which holds of
+      every table op/3 can produce (`C06_tableOK_of_valid`, `C18_inv`);
+    * on the writer's parameters: `EnvOK` (variable names are distinct `_`-tokens, `FormatFloat` round-trips)
+      and `CapOK` (`C06_op_roundtrip_capital_witness`; true of
+      the real character tables, `C06_capOK_driver`). -/
 def C06_op_roundtrip_statement : Prop :=
   ∀ (e : Env) (ops : Ops.Table) (dq : Read.DoubleQuotes) (t : Term),
     (∀ c, e.cfg.conv c = c) →
     Read.readTerm e.cfg ops dq (writeq e ops t ++ [' ', '.']) = .ok t.canon
+
+/-- **P2.**  `writeq(T)` followed by ` .` is read back by `read_term` as `T` with its variables renamed by
+    first occurrence — for EVERY well-formed finite term `T` without `'$VAR'(N)` (atoms of arbitrary text,
+    operators as atoms / operands / functors, negative numbers, `- (1)`, `1 - -1`, `- - a`, `f(:-)`, `[a|b]`,
+    `{a,b}`, nested prefix / infix / postfix operators of any priorities and associativities, functional
+    notation of any arity), EVERY operator table with `tableOK` (in particular every table reachable through
+    op/3, `C06_tableOK_of_valid`) and every double_quotes flag.  Hypotheses:
+    * `EnvOK e G P`, `numsOK P T`, `wfTerm T` as for P1 (`C06_canonical_roundtrip`);
+      (that `FormatFloat` prints `-` exactly for floats with the sign bit set — the writer decides brackets
+      and spaces by `math.Signbit` — follows from `EnvOK.fltLaw`: `Write.signOK_of_envOK`);
+    * `CapOK e.cfg`: the character-class oracle counts no graphic character as a capital letter (true of
+      Go's tables: `C06_capOK_driver`; needed: `C06_op_roundtrip_capital_witness`);
+    * `tableOK ops` (needed: the `…_witness` theorems below, one per conjunct);
+    * `noVAR T` (needed: `C06_op_roundtrip_numbervars_witness`). -/
+theorem C06_op_roundtrip (e : Env) (G : UInt64 → GText) (P : UInt64 → Bool) (he : EnvOK e G P)
+    (hcap : CapOK e.cfg) (ops : Ops.Table) (hops : tableOK ops = true) (dq : Read.DoubleQuotes) (t : Term)
+    (hw : wfTerm t = true) (hn : numsOK P t = true) (hv : noVAR t = true) :
+    Read.readTerm e.cfg ops dq (writeq e ops t ++ [' ', '.']) = .ok t.canon :=
+  readTerm_writeq e G P he hcap ops hops dq t hw hn hv
+
+/-- … in particular under every operator table that satisfies the invariant `Ops.Valid` of C18, i.e. every
+    table reachable from the default table through op/3 (`C18_inv`) -/
+theorem C06_op_roundtrip_valid (e : Env) (G : UInt64 → GText) (P : UInt64 → Bool) (he : EnvOK e G P)
+    (hcap : CapOK e.cfg) (ops : Ops.Table) (hvalid : Ops.Valid ops) (dq : Read.DoubleQuotes) (t : Term)
+    (hw : wfTerm t = true) (hn : numsOK P t = true) (hv : noVAR t = true) :
+    Read.readTerm e.cfg ops dq (writeq e ops t ++ [' ', '.']) = .ok t.canon :=
+  readTerm_writeq e G P he hcap ops (tableOK_of_valid hvalid) dq t hw hn hv
+
+/-- P2, writer/lexer half: the text lexes to exactly the token sequence `qt` — the spacing rules of the
+    writer never glue two tokens together nor split one (`Write.lexSeq_qt_cont`, by induction on the term) -/
+theorem C06_op_tokens (e : Env) (G : UInt64 → GText) (P : UInt64 → Bool) (he : EnvOK e G P)
+    (hcap : CapOK e.cfg) (ops : Ops.Table) (hops : tableOK ops = true) (t : Term)
+    (hw : wfTerm t = true) (hn : numsOK P t = true) (hv : noVAR t = true) :
+    (tokens e.cfg ((writeq e ops t ++ [' ', '.']).length + 1) (Lexer.ofList (writeq e ops t ++ [' ', '.']))).1 =
+      qt e G t (qopts ops) ++ [⟨.end_, ['.']⟩] := by
+  have hseq := lexSeq_writeq e G P he (signOK_of_envOK he) hcap ops hops t hw hn hv
+  exact tokens_all e.cfg hseq _ (by have := hseq.length_le; omega)
+
+/-- P2, reader half on its own: if the text lexes to the tokens `qt` (a decidable check, `Write.lexOK`), then
+    `read_term` returns `T` — needs neither `CapOK` nor `noVAR`. -/
+theorem C06_op_roundtrip_of_tokens (e : Env) (G : UInt64 → GText) (P : UInt64 → Bool) (he : EnvOK e G P)
+    (ops : Ops.Table) (hops : tableOK ops = true) (dq : Read.DoubleQuotes) (t : Term)
+    (hw : wfTerm t = true) (hn : numsOK P t = true) (hlex : lexOK e G ops t = true) :
+    Read.readTerm e.cfg ops dq (writeq e ops t ++ [' ', '.']) = .ok t.canon :=
+  readTerm_writeq_of_lexOK e G P he ops hops dq t hw hn hlex
+
+/-- the character-class oracle the driver runs with (tables regenerated from the Go toolchain's package
+    unicode) counts no graphic character as a capital letter; nor does the ASCII oracle -/
+theorem C06_capOK_driver : CapOK Driver.C06.cfg ∧ CapOK Cfg.ascii := ⟨capOK_driver, capOK_ascii⟩
+
+/-- every table reachable from the default table through op/3 (`Ops.Valid`, C18_inv) satisfies `tableOK` -/
+theorem C06_tableOK_of_valid (ops : Ops.Table) (h : Ops.Valid ops) : tableOK ops = true := tableOK_of_valid h
+
+namespace OpExample
+open PrologVerif.C06Example
+
+/-- `- (1) + a * (b - c) :- \+ f(- , X)` -/
+def exT : Term :=
+  .app ":-" (.cons
+    (.app "+" (.cons (.app "-" (.cons (.int 1) .nil))
+      (.cons (.app "*" (.cons (.atom "a") (.cons (.app "-" (.cons (.atom "b") (.cons (.atom "c") .nil))) .nil))) .nil)))
+    (.cons (.app "\\+" (.cons (.app "f" (.cons (.atom "-") (.cons (.var 7) .nil))) .nil)) .nil))
+
+end OpExample
+
+open OpExample PrologVerif.C06Example in
+-- non-vacuity: the hypotheses hold for this term under the default table, and this is what is written
+example : tableOK Ops.defaultTable = true ∧ wfTerm exT = true ∧ numsOK exP exT = true ∧ noVAR exT = true ∧
+    lexOK exEnv exG Ops.defaultTable exT = true ∧
+    writeq exEnv Ops.defaultTable exT = "- (1)+a*(b-c):- \\+f(-,_aaaaaaaa)".toList := by
+  decide +kernel
+
+open OpExample PrologVerif.C06Example in
+-- … so the theorem applies to it (every hypothesis discharged), for every double_quotes flag
+example (dq : Read.DoubleQuotes) :
+    Read.readTerm exEnv.cfg Ops.defaultTable dq (writeq exEnv Ops.defaultTable exT ++ [' ', '.']) = .ok exT.canon :=
+  C06_op_roundtrip exEnv exG exP exEnv_ok capOK_ascii Ops.defaultTable (by decide +kernel) dq exT
+    (by decide +kernel) (by decide +kernel) (by decide +kernel)
+
+/-! #### the hypotheses are needed: witnesses on the model
+
+  None of the tables below is reachable through op/3 (`validateOp` refuses them), so these are not defects
+  of the implementation; `'$VAR'(N)` is printed as a variable name by design (numbervars(true)). -/
+
+section
+open PrologVerif.C06Example
+
+/-- the model round trip as an option -/
+def rtq (ops : Ops.Table) (t : Term) : Option Term :=
+  (Read.readTerm exEnv.cfg ops .chars (writeq exEnv ops t ++ [' ', '.'])).toOption
+
+/-- `noVAR`: writeq('$VAR'(1)) is `B`, read back as a variable -/
+theorem C06_op_roundtrip_numbervars_witness :
+    rtq Ops.defaultTable (.app "$VAR" (.cons (.int 1) .nil)) = some (.var 0) := by decide +kernel
+
+/-- `numsOK`: the model's integers are unbounded, the engine's are 64-bit: 2^64 is written in full and
+    refused by `integer()` (representation_error) -/
+theorem C06_op_roundtrip_bigint_witness : rtq Ops.defaultTable (.int 18446744073709551616) = none := by
+  decide +kernel
+
+/-- `wfTerm`: a stream handle is written `<stream>`; a "compound" without arguments is written as its functor -/
+theorem C06_op_roundtrip_wf_witness :
+    rtq Ops.defaultTable (.str 0) = none ∧ rtq Ops.defaultTable (.app "f" .nil) = some (.atom "f") := by
+  decide +kernel
+
+/-- `tableOK`, no infix and postfix operator of one name: with op p as (700,xfx) and (200,xf), `p(a)` is
+    written `a p`, where the reader takes `p` for the infix operator -/
+theorem C06_op_roundtrip_infix_postfix_witness :
+    rtq [⟨",", 1000, .xfy⟩, ⟨"p", 700, .xfx⟩, ⟨"p", 200, .xf⟩] (.app "p" (.cons (.atom "a") .nil)) = none := by
+  decide +kernel
+
+/-- `tableOK`, `,` has priority 1000: with (200,xfy) the argument `(a,b)` of `f((a,b))` is not bracketed -/
+theorem C06_op_roundtrip_comma_witness :
+    rtq [⟨",", 200, .xfy⟩] (.app "f" (.cons (.app "," (.cons (.atom "a") (.cons (.atom "b") .nil))) .nil)) =
+      some (.app "f" (.cons (.atom "a") (.cons (.atom "b") .nil))) := by
+  decide +kernel
+
+/-- `tableOK`, `|` has priority ≥ 1001: with (200,xfy) the list `[a|b]` is read as `['|'(a,b)]` -/
+theorem C06_op_roundtrip_bar_witness :
+    rtq [⟨",", 1000, .xfy⟩, ⟨"|", 200, .xfy⟩] (.app "." (.cons (.atom "a") (.cons (.atom "b") .nil))) =
+      some (.app "." (.cons (.app "|" (.cons (.atom "a") (.cons (.atom "b") .nil))) (.cons (.atom "[]") .nil))) := by
+  decide +kernel
+
+/-- `tableOK`, `[]` is not an operator: `'[]'(a,b)` would be written `a[]b`, which the reader rejects -/
+theorem C06_op_roundtrip_brackets_witness :
+    rtq [⟨"[]", 200, .xfx⟩] (.app "[]" (.cons (.atom "a") (.cons (.atom "b") .nil))) = none := by
+  decide +kernel
+
+/-- `tableOK`, priorities ≤ 1200: with (1300,fy) `p(a)` is written `(p a)`, which the reader rejects -/
+theorem C06_op_roundtrip_priority_witness :
+    rtq [⟨"p", 1300, .fy⟩] (.app "p" (.cons (.atom "a") .nil)) = none := by
+  decide +kernel
+
+/-- `CapOK`: if the oracle counted the graphic character `∀` as a capital letter, `∀(a,b)` (with `∀` an infix
+    operator) would be written `a∀b`, which is one letter-digit token (the writer's `letterDigit` looks for
+    small letters only, the lexer continues a name over every alphanumeric); `Write.cex_capOK` has all the
+    other hypotheses -/
+theorem C06_op_roundtrip_capital_witness :
+    (Read.readTerm cexEnv.cfg cexOps .chars (writeq cexEnv cexOps cexTerm ++ [' ', '.'])).toOption =
+      some (.atom "a∀b") := by
+  decide +kernel
+
+/-- D26 on the tree before repo commit 88ee1dd: under op(200,xf,e1) `writeq(e1(1.5))` printed `1.5e1`
+    (only the operators named `e` and `E` were kept apart from a float), which is the float 15.0 -/
+theorem C06_op_roundtrip_D26_pinned_witness :
+    (Read.readTerm exEnv.cfg [⟨"e1", 200, .xf⟩] .chars "1.5e1 .".toList).toOption = some (.flt 0x402E000000000000) := by
+  decide +kernel
+
+/-- … the repaired writer puts a space, and the text reads back -/
+example : writeq exEnv [⟨"e1", 200, .xf⟩] (.app "e1" (.cons (.flt 0x3FF8000000000000) .nil)) = "1.5 e1".toList ∧
+    rtq [⟨"e1", 200, .xf⟩] (.app "e1" (.cons (.flt 0x3FF8000000000000) .nil)) =
+      some (.app "e1" (.cons (.flt 0x3FF8000000000000) .nil)) := by
+  decide +kernel
+
+end
 
 end PrologVerif.C06
